@@ -34,6 +34,7 @@ typedef struct vs_config {
   int stall_thread2;   // optional second thread held at its stall_at2-th access (three- and four-party windows)
   uint64_t stall_at2;
   uint64_t stall_len;
+  uint64_t stall_spins;  // if set: the stall also ends once the running threads made this many cpu_relax() calls during it
   // replay
   int n_replay;
   const uint32_t* replay_points;
@@ -122,6 +123,8 @@ void* vs_alloc_far(size_t n);
 void vs_heap_allow_freed(int on);
 // number of spin-wait iterations (cpu_relax) the calling virtual thread has executed so far
 uint64_t vs_spin_calls(void);
+// non-zero in a long-stall run (a thread is held for up to 10^9 scheduling points): poll-count limits of the harnesses do not apply
+int vs_long_stall_run(void);
 // called when a virtual thread enters epoll_wait with a non-zero time-out (it is about to sleep in the kernel)
 extern void (*vs_on_blocking_poll)(void);
 // single-writer fields: the first virtual thread that writes [p, p+n) after this call owns it; a write by any other
